@@ -249,10 +249,10 @@ MEASUREMENTS = {'C01': ['c01-measure'], 'C19': ['probe builders'], 'C03': ['prob
 # Used ONLY to look for a failing input after the verifier flagged the property (failed obligation, or undecidable on a
 # changed tree), and as a labelled bounded extra in the thorough tier.  They do not decide anything on the unchanged tree.
 PROBES = {
-    'C02': ['structures', 'headers', 'roundtrip'], 'C03': ['structures'], 'C04': ['structures'], 'C05': ['structures'], 'C06': ['structures'],
-    'C08': ['headers'], 'C12': ['headers', 'keys', 'claims'], 'C09': ['framing', 'headers', 'roundtrip'], 'C13': ['framing'], 'C14': ['framing'],
+    'C02': ['structures', 'headers', 'roundtrip', 'messages'], 'C03': ['structures'], 'C04': ['structures'], 'C05': ['structures'], 'C06': ['structures'],
+    'C08': ['headers'], 'C12': ['headers', 'keys', 'claims'], 'C09': ['framing', 'headers', 'roundtrip', 'messages'], 'C13': ['framing'], 'C14': ['framing'],
     'C15': ['integers'], 'C16': ['order'], 'C17': ['claims', 'keys', 'headers'], 'C20': ['order'],
-    'C10': ['keys'], 'C18': ['claims', 'integers'], 'C19': ['builders'], 'C07': ['roundtrip'], 'C11': ['roundtrip'], 'C01': ['roundtrip', 'framing', 'headers', 'keys', 'claims', 'integers', 'structures', 'builders', 'order'],
+    'C10': ['keys'], 'C18': ['claims', 'integers'], 'C19': ['builders'], 'C07': ['roundtrip', 'messages'], 'C11': ['roundtrip'], 'C01': ['roundtrip', 'framing', 'headers', 'keys', 'claims', 'integers', 'structures', 'builders', 'order', 'messages'],
 }
 
 # users of the core functions that the property statements cover as well
@@ -266,6 +266,13 @@ OBLIGATIONS['C02'] += [
 OBLIGATIONS['C03'] += [
     ('sign::*::verify_*', 'body'), ('sign::*Builder::*create*signature', 'body'), ('sign::*Builder::*add_*signature', 'body'),
 ]
+# refusal copies (negated precondition, `ensures false`) of the guards written as `if .. { panic!(..) }` / `assert!`: they must fail
+# ONLY at the panic; a postcondition failure means some call outside the precondition returns normally
+OBLIGATIONS['C19'] += [('header::HeaderBuilder::value__ref_reserved', 'ref'), ('key::CoseKeyBuilder::param__ref_reserved', 'ref'),
+                       ('cwt::ClaimsSetBuilder::claim__ref_reserved', 'ref'), ('cwt::ClaimsSetBuilder::private_claim__ref_private', 'ref')]
+OBLIGATIONS['C12'] += [('header::HeaderBuilder::value__ref_reserved', 'ref'), ('key::CoseKeyBuilder::param__ref_reserved', 'ref'), ('cwt::ClaimsSetBuilder::claim__ref_reserved', 'ref')]
+OBLIGATIONS['C05'] += [('encrypt::CoseRecipient::decrypt__ref_context', 'ref'), ('encrypt::CoseRecipientBuilder::aad__ref_context', 'ref')]
+OBLIGATIONS['C03'] += [('sign::CoseSign1::tbs_detached_data__ref_payload', 'ref'), ('sign::CoseSign::tbs_detached_data__ref_payload', 'ref')]
 OBLIGATIONS['C17'] += [     # the decoders that classify labels through the registries
     ('cwt::ClaimsSet::from_cbor_value', 'body'), ('header::Header::from_cbor_value_nested', 'body'), ('key::CoseKey::from_cbor_value', 'body'),
 ]
